@@ -609,9 +609,7 @@ def b_concretize(E, st, fr, ins, args):
     outs = E.concretize(st, v, what='harness value')
     res = []
     for s, val in outs:
-        f2 = s.frames[-1]
-        f2.regs[ins.res] = val
-        f2.idx += 1
+        E.complete_call(s, ins, val)
         res.append(s)
     if len(res) == 1 and res[0] is st:
         return JUMP
